@@ -239,7 +239,7 @@ fn run(cfg: &Cfg) -> Report {
     rep.exhaustive = Some(true);
     rep.absorb(run_enumerated(cfg, "pairs", &pairs, case_json, check));
     if !rep.failed() {
-        let cases = cfg.tier.pick(12u32, 300u32);
+        let cases = cfg.tier.pick(60u32, 600u32);
         let n = modules.len();
         let mods = modules.clone();
         let closures2 = closures.clone();
